@@ -3,7 +3,7 @@ HOOKS = {
     "guard": "verif",
     "enable": "go build/test -tags verif (harness binaries are always built with the tag; pkg/verifhook.At is a no-op without it)",
     "baseline_off_cmd": "cd /repo && GOFLAGS=-mod=mod GOPROXY=off GOSUMDB=off GOTOOLCHAIN=local go test -vet=off -count=1 -timeout 25m ./...",
-    "source_commits": ["4ff2e5f", "c87a6cd", "7859b27", "c762f15", "8b4d4ce", "6e75e81", "af17ec1", "dfc1fea", "7167230", "ba0808b"],
+    "source_commits": ["4ff2e5f", "c87a6cd", "7859b27", "c762f15", "8b4d4ce", "6e75e81", "af17ec1", "dfc1fea", "7167230", "ba0808b", "7c1f068"],
     "add_only": True,
 }
 ENGINES = [
